@@ -195,6 +195,12 @@ func RunParent(m *Monitor, o ParentOpts) int {
 		total.Counters["race_detector_enabled"] = 1
 	}
 
+	if m.Aggregate != nil {
+		for i, v := range m.Aggregate(o.Tier, total.Counters) {
+			addViolation(v.Class, v.Brief, v.Brief+"\n", fmt.Sprintf("%s-s%d-aggregate%d.txt", o.Tier, o.Seed, i))
+		}
+	}
+
 	// floors
 	minD := 2
 	if m.MinDistinct != nil {
